@@ -527,3 +527,63 @@ def run_world(w, trace=True, plan=None, config=None):
             out['json_error'] = repr(e)
     out['trace'] = read_trace(trace_dir) if trace else {}
     return out
+
+
+def derive_world(w, name, Xq=None, cell_ids=None, query_genes=None,
+                 encoding=None, normalization=None, model=None,
+                 stats_path=None, marker_table=None, ta_updates=None,
+                 cfg_updates=None, spec_updates=None):
+    """
+    a second world sharing w's inputs except for what is overridden; it gets
+    its own out / scratch / trace / cwd directories under w.work/<name>
+    """
+    import copy
+    d = World()
+    d.__dict__.update(w.__dict__)
+    d.spec = dict(w.spec)
+    if spec_updates:
+        d.spec.update(spec_updates)
+    d.work = w.work / name
+    for sub in ('in', 'out', 'scratch', 'trace', 'cwd'):
+        (d.work / sub).mkdir(parents=True, exist_ok=True)
+    new_query = any(x is not None for x in (Xq, cell_ids, query_genes,
+                                            encoding))
+    if Xq is not None:
+        d.Xq = Xq
+    if cell_ids is not None:
+        d.cell_ids = list(cell_ids)
+    if query_genes is not None:
+        d.query_genes = list(query_genes)
+    if encoding is not None:
+        d.spec['encoding'] = encoding
+    if normalization is not None:
+        d.spec['normalization'] = normalization
+    if new_query:
+        d.query_path = d.work / 'in' / 'query.h5ad'
+        write_h5ad(d.query_path, d.Xq, d.cell_ids, d.query_genes,
+                   encoding=d.spec['encoding'])
+    if model is not None:
+        d.model = model
+    if stats_path is not None:
+        d.stats_path = stats_path
+    if marker_table is not None:
+        d.marker_table = marker_table
+        d.marker_path = d.work / 'in' / 'markers.json'
+        d.marker_path.write_text(json.dumps(marker_table))
+    d.config = make_config(d, d.spec)
+    d.config['drop_level'] = w.config['drop_level']
+    d.config['type_assignment'] = copy.deepcopy(
+        w.config['type_assignment'])
+    d.config['type_assignment']['normalization'] = d.spec['normalization']
+    if ta_updates:
+        d.config['type_assignment'].update(ta_updates)
+    if cfg_updates:
+        d.config.update(cfg_updates)
+    d.drop_level = d.config['drop_level']
+    return d
+
+
+def strip_volatile(js):
+    """the part of a JSON output that counts as 'results'"""
+    return {k: js[k] for k in js
+            if k not in ('log', 'metadata', 'config')}
